@@ -230,7 +230,8 @@ def r101(ctx, prog, B):
             good = ps is not None and len(ps) == 1 and is_adt(ps[0][0], 'result::Result', 'Ok') and is_adt(ps[0][0][4][0], 'value::Value', 'Boolean')
             if good:
                 inner = ps[0][0][4][0][4][0]
-                good = inner[0] == 'app' and inner[1] == '<indirect>' and inner[2][-1] == F(ty, 'x')
+                # the captured predicate is applied to the converted argument: seen directly (the fn pointer's value is known on the path) or as an indirect call
+                good = inner[0] == 'app' and ((inner[1] == '<indirect>' and inner[2][-1] == F(ty, 'x')) or (inner[1] == FT + short_name and inner[2] == (F(ty, 'x'),)))
             n += 1
             ctx.check(good, 'R10.4', '%s[%s]' % (name, ty), 'boolean', '%s applies the predicate to the argument converted to float and yields a Boolean (found %s)' % (name, [fmt(p[0])[:120] for p in (ps or [])]))
     for name, meth in list(INT2.items()):
